@@ -630,4 +630,102 @@ theorem intLit_not_name {v : Bytes} {neg : Bool} {n : Nat} (h : IntLit v neg n) 
     rw [List.append_assoc]
     exact hpre pre _ hp (fun c' r' he => by simp at he; rw [← he.1]; decide) (by simp)
 
+/-! ### strconv.FormatInt -/
+
+theorem specDigits_cons (base acc : Nat) (c : UInt8) (cs : Bytes) :
+    specDigits base acc (c :: cs) =
+      match specDigit base c with
+      | some d => if d < base then specDigits base (acc * base + d) cs else none
+      | none => none := by
+  rw [specDigits]
+  rfl
+
+theorem specDigits_append {base : Nat} : ∀ (a b : Bytes) (acc : Nat),
+    specDigits base acc (a ++ b) = (specDigits base acc a).bind (fun m => specDigits base m b)
+  | [], b, acc => by simp [specDigits]
+  | c :: cs, b, acc => by
+    rw [List.cons_append, specDigits_cons, specDigits_cons]
+    cases specDigit base c with
+    | none => rfl
+    | some d =>
+      simp only []
+      by_cases hd : d < base
+      · rw [if_pos hd, if_pos hd]; exact specDigits_append cs b _
+      · rw [if_neg hd, if_neg hd]; rfl
+
+theorem specDigits_single {base acc d : Nat} {c : UInt8} (h : specDigit base c = some d)
+    (hd : d < base) : specDigits base acc [c] = some (acc * base + d) := by
+  rw [specDigits_cons, h]
+  simp only [hd, if_true]
+  rfl
+
+theorem decDigit_facts : ∀ n, n < 10 →
+    specDigit 10 (UInt8.ofNat (48 + n)) = some n ∧ UInt8.ofNat (48 + n) ≠ 35 ∧
+      (1 ≤ n → UInt8.ofNat (48 + n) ≠ 48) := by decide
+
+theorem fmtNatGo_spec : ∀ (fuel n : Nat), n < fuel →
+    specDigits 10 0 (fmtNatGo fuel n) = some n ∧ (∀ b ∈ fmtNatGo fuel n, b ≠ 35) ∧
+      ∃ c r, fmtNatGo fuel n = c :: r ∧ (1 ≤ n → c ≠ 48)
+  | 0, n, h => by omega
+  | fuel + 1, n, h => by
+    unfold fmtNatGo
+    by_cases hn : n < 10
+    · rw [if_pos hn]
+      obtain ⟨h1, h2, h3⟩ := decDigit_facts n hn
+      refine ⟨?_, ?_, _, _, rfl, h3⟩
+      · rw [specDigits_single h1 hn]; simp
+      · intro b hb; rw [List.mem_singleton] at hb; rw [hb]; exact h2
+    · rw [if_neg hn]
+      have hlt : n / 10 < fuel := by omega
+      obtain ⟨ih1, ih2, c, r, ih3, ih4⟩ := fmtNatGo_spec fuel (n / 10) hlt
+      obtain ⟨h1, h2, _⟩ := decDigit_facts (n % 10) (by omega)
+      refine ⟨?_, ?_, c, r ++ [UInt8.ofNat (48 + n % 10)], ?_, ?_⟩
+      · rw [specDigits_append, ih1]
+        have hm : n % 10 < 10 := by omega
+        show specDigits 10 (n / 10) [UInt8.ofNat (48 + n % 10)] = some n
+        rw [specDigits_single h1 hm]
+        congr 1; omega
+      · intro b hb
+        rcases List.mem_append.1 hb with hb | hb
+        · exact ih2 b hb
+        · rw [List.mem_singleton] at hb; rw [hb]; exact h2
+      · rw [ih3]; rfl
+      · intro _; exact ih4 (by omega)
+
+theorem specNumber_fmtNat (n : Nat) : specNumber (fmtNat n) = some n := by
+  unfold fmtNat
+  obtain ⟨h1, h2, c, r, h3, h4⟩ := fmtNatGo_spec (n + 1) n (by omega)
+  by_cases hn : n = 0
+  · subst hn; decide
+  · rw [h3] at h1 h2 ⊢
+    rw [specNumber_other (h4 (by omega)), cutHash_none_of_no_hash _ h2]
+    exact h1
+
+theorem fmtInt_intLit (v : Int) : IntLit (fmtInt v) (decide (v < 0)) v.natAbs := by
+  unfold fmtInt
+  by_cases hv : v < 0
+  · rw [if_pos hv]
+    have := IntLit.minus [] (fmtNat v.natAbs) [] v.natAbs (by intro b hb; cases hb)
+      (by intro b hb; cases hb) (specNumber_fmtNat _)
+    simpa [hv] using this
+  · rw [if_neg hv]
+    have := IntLit.pos [] (fmtNat v.natAbs) [] v.natAbs (by intro b hb; cases hb)
+      (by intro b hb; cases hb) (specNumber_fmtNat _)
+    simpa [hv] using this
+
+/-- `atoi` reads back what `FormatInt` wrote — except for the most negative int64, whose
+    magnitude `strconv.ParseInt` clamps (an overflow case, outside the property's domain). -/
+theorem atoi_fmtInt {v : Int} (h : inI64 v = true) (hmin : v ≠ -9223372036854775808) :
+    atoi (fmtInt v) = v := by
+  rw [inI64_iff] at h
+  by_cases hv : v < 0
+  · rw [atoi_intLit (fmtInt_intLit v) (by omega)]
+    simp only [hv, decide_true, if_true, Int.ofNat_eq_natCast]
+    omega
+  · rw [atoi_intLit (fmtInt_intLit v) (by omega)]
+    simp only [hv, decide_false, Bool.false_eq_true, if_false, Int.ofNat_eq_natCast]
+    omega
+
+theorem atoi_fmtInt_min : atoi (fmtInt (-9223372036854775808)) = -9223372036854775807 := by decide
+
 end ShVerif.C20
